@@ -99,6 +99,21 @@ def views(case):
         raise Skip()
     _check_views(ri, n, ctx, "output-ints")
     _check_views(rs, n, ctx, "output-strings")
+    # integer outcomes arrive in many integer TYPES (numpy scalars and arrays - the emulator's own
+    # as_int values are numpy ints -, tuples): all of them are ints
+    forms = {
+        "numpy-scalars": [np.int64(k) if i % 2 else np.int32(k) for i, k in enumerate(outs)],
+        "numpy-array": np.array(outs, dtype=np.int64 if len(outs) % 2 else np.uint16),
+        "tuple": tuple(outs),
+    }
+    form = sorted(forms)[case["outs_seed"] % 3]
+    if outs:
+        st3, rn = guard(parse_jaqal_output_list, c, forms[form], what=f"parse_jaqal_output_list({form})")
+        if st3 == "err":
+            raise Violation("output-list-rejected", f"[{form}] {rn}\nsupplied {outs}\n{ctx}", where=form)
+        _check_views(rn, n, ctx, "output-" + form)
+        if [int(x.as_int) for x in rn.readouts] != outs:
+            raise Violation("int-vs-string-outputs", f"[{form}] read {[int(x.as_int) for x in rn.readouts]}, supplied {outs}\n{ctx}", where=form)
     a = [(x.index, x.subcircuit.index, x.as_int, x.as_str) for x in ri.readouts]
     b = [(x.index, x.subcircuit.index, x.as_int, x.as_str) for x in rs.readouts]
     if a != b or [x[2] for x in a] != outs:
